@@ -193,6 +193,29 @@ pub fn cmd_transcript(args: &[String]) {
         }
         emit(&mut out, &mut rep, format!("container_resize i={} {}->{}->{}", i, l0, l1, l2), im);
     }
+    // decoding the same document gives the same verdict and the same bytes whatever container receives them
+    for n in [0usize, 1, 16, 31, 32, 33, 64] {
+        let elems: Vec<u8> = (0..n).map(|i| (i as u8).wrapping_mul(5) | 1).collect();
+        let doc = serde_json::to_string(&elems).unwrap();
+        let enc = |r: Result<Vec<u8>, String>| -> Result<Vec<u8>, String> { Ok(match r { Ok(v) => [&[1u8][..], &v[..]].concat(), Err(_) => vec![0u8] }) };
+        let mut im: Vec<(String, Result<Vec<u8>, String>)> = vec![];
+        im.push(("StackByteArray<32> from a JSON sequence".into(), enc(serde_json::from_str::<dryoc::types::StackByteArray<32>>(&doc).map(|a| a.as_slice().to_vec()).map_err(|e| e.to_string()))));
+        #[cfg(feature = "nightly")]
+        {
+            use dryoc::protected::*;
+            im.push(("Locked<HeapByteArray<32>> from a JSON sequence".into(), enc(serde_json::from_str::<Locked<HeapByteArray<32>>>(&doc).map(|a| a.as_slice().to_vec()).map_err(|e| e.to_string()))));
+        }
+        emit(&mut out, &mut rep, format!("decode_fixed32 elements={}", n), im);
+        let mut im: Vec<(String, Result<Vec<u8>, String>)> = vec![];
+        im.push(("Vec<u8> from a JSON sequence".into(), enc(serde_json::from_str::<Vec<u8>>(&doc).map_err(|e| e.to_string()))));
+        #[cfg(feature = "nightly")]
+        {
+            use dryoc::protected::*;
+            im.push(("HeapBytes from a JSON sequence".into(), enc(serde_json::from_str::<HeapBytes>(&doc).map(|a| a.as_slice().to_vec()).map_err(|e| e.to_string()))));
+            im.push(("LockedBytes from a JSON sequence".into(), enc(serde_json::from_str::<LockedBytes>(&doc).map(|a| a.as_slice().to_vec()).map_err(|e| e.to_string()))));
+        }
+        emit(&mut out, &mut rep, format!("decode_bytes elements={}", n), im);
+    }
     for i in 0..24u64 {
         let pw = rng.bytes((i * 3) as usize);
         let salt = rng.bytes(16);
